@@ -224,12 +224,12 @@ theorem loop_step (S : Schema) (fast : Bool) (md : MD) (r : WRec) (hok : r.OK md
     have hAt0 : d.At pre (encTag r.tag r.wt ++ (r.body ++ post)) := by
       have := hAt; simp only [Rec.wire, List.append_assoc] at this; exact this
     have hts := Dec.tag_at hAt0 htag.1 htag.2 (Rec.wt_lt r)
-    have hAt1 := hAt0.advance
-    have hskip := Dec.skip_at htag.1 htag.2 (Rec.body_wf hrok) hAt1
-    have hstep2 : ({ d with off := d.off + (encTag r.tag r.wt).length } : Dec).step (.skip r.tag r.wt) =
-        ({ d with off := d.off + (encTag r.tag r.wt).length + r.body.length }, .ok (.bytes r.wire), 0) := by
+    have hAt1 := hAt0.afterTag
+    have hskip := Dec.skip_at htag.1 htag.2 (Rec.body_wf hrok) hAt1 (by intro _; simp [hAt0.off])
+    have hstep2 : ((d.afterTag (encTag r.tag r.wt).length) : Dec).step (.skip r.tag r.wt) =
+        ({ d.afterTag (encTag r.tag r.wt).length with off := (d.afterTag (encTag r.tag r.wt).length).off + r.body.length }, .ok (.bytes r.wire), 0) := by
       simp only [Dec.step, withAlloc, hskip, Rec.wire]
-    refine ⟨{ d with off := d.off + (encTag r.tag r.wt).length + r.body.length }, ?_, by simpa using hf, ?_⟩
+    refine ⟨{ d.afterTag (encTag r.tag r.wt).length with off := (d.afterTag (encTag r.tag r.wt).length).off + r.body.length }, ?_, by simpa using hf, ?_⟩
     · refine ⟨by show d.p = _; rw [hAt.p]; simp [WRec.wire], ?_⟩
       show d.off + (encTag r.tag r.wt).length + r.body.length = _
       simp [hAt.off, WRec.wire, Rec.wire]; omega
